@@ -3,3 +3,6 @@
 Run with /venv/bin/python (fabric_fim is editable-installed from /repo, so the current working
 tree of /repo is what gets executed).  See /verif/DESIGN.md.
 """
+
+import logging as _logging
+_logging.disable(_logging.CRITICAL)   # the library logs warnings for every forgiving decode; keep check output clean
